@@ -59,7 +59,7 @@ func switchReturnLits(info *types.Info, fd *ast.FuncDecl) (tab map[string]string
 func checkC20(c *Ctx) {
 	c.Rule("R20.1", "String / CapitalString / unmarshalText tables agree for every level; only documented aliases", 16)
 	c.Rule("R20.2", "parsing never partially updates: stores only in matching arms; exact then ToLower; SetLevel/returns only under err == nil", 6)
-	c.Rule("R20.3", "HTTP handler: single SetLevel under PUT ∧ decode ok; 4xx before every error body; level read after store; decoders reject missing values", 5)
+	c.Rule("R20.3", "HTTP handler: single SetLevel under PUT ∧ decode ok; 4xx before every error body; level read after store; decoders reject missing values", 3)
 	c.Rule("R20.4", "LevelFlag registers the variable it returns; Set parses, Get reads", 2)
 
 	lvNamed := c.Named(CorePath, "Level")
@@ -276,7 +276,7 @@ func checkC20(c *Ctx) {
 				calls = true
 			}
 		}
-		c.Check(calls, "R20.2", fn.String(), "parses-via-UnmarshalText", fn.Pos(), "%s parses through Level.UnmarshalText (so the table above is the only one)", fn.Name())
+		c.Check(calls, "R20.2", FStr(fn), "parses-via-UnmarshalText", fn.Pos(), "%s parses through Level.UnmarshalText (so the table above is the only one)", FNm(fn))
 	}
 	// SetLevel call sites fed from parsed input
 	for _, tgt := range []struct{ pkg, recv, name string }{{ZapPath, "AtomicLevel", "UnmarshalText"}, {ZapPath, "", "ParseAtomicLevel"}} {
@@ -300,7 +300,7 @@ func checkC20(c *Ctx) {
 	// the handler as a whole: the exported method, whatever unexported helper it delegates to explored inline
 	sh := c.Method(ZapPath, "AtomicLevel", "ServeHTTP")
 	if c.Anchor("R20.3", "zap.AtomicLevel.ServeHTTP", sh != nil) {
-		name := sh.String()
+		name := FStr(sh)
 		// Path exploration (helpers inline; the decoders opaque): what every combination of request method and decode
 		// outcome does to the level and to the response.
 		// a decoder: any function (called directly or through a function value) that yields (zapcore.Level, error)
@@ -465,7 +465,7 @@ func checkC20(c *Ctx) {
 			rv := RetVals(r)
 			if !IsNilConst(Strip(rv[1])) {
 				v, isC := ConstInt(rv[0])
-				c.Check(isC && v == 0, "R20.3", dj.String(), "error-returns-zero#"+itoa(k+1), r.Pos(), "error returns carry the zero level")
+				c.Check(isC && v == 0, "R20.3", FStr(dj), "error-returns-zero#"+itoa(k+1), r.Pos(), "error returns carry the zero level")
 				continue
 			}
 			atoms := AtomStrings(Guards(r))
@@ -478,7 +478,7 @@ func checkC20(c *Ctx) {
 					okN = true
 				}
 			}
-			c.Check(okD && okN && Desc(rv[0]) == "pld.Level", "R20.3", dj.String(), "success-needs-level#"+itoa(k+1), r.Pos(), "a level is returned only after a successful decode that produced a non-nil level (guards %v, value *%s)", atoms, Desc(rv[0]))
+			c.Check(okD && okN && Desc(rv[0]) == "pld.Level", "R20.3", FStr(dj), "success-needs-level#"+itoa(k+1), r.Pos(), "a level is returned only after a successful decode that produced a non-nil level (guards %v, value *%s)", atoms, Desc(rv[0]))
 		}
 	}
 	if du != nil {
@@ -487,7 +487,7 @@ func checkC20(c *Ctx) {
 			rv := RetVals(r)
 			if IsNilConst(Strip(rv[1])) {
 				ok := HasAtom(Guards(r), func(s string) bool { return s == `FormValue(r, "level") != ""` })
-				c.Check(ok, "R20.3", du.String(), "empty-value-rejected#"+itoa(k+1), r.Pos(), "the form decoder succeeds only for a non-empty level value (guards %v)", AtomStrings(Guards(r)))
+				c.Check(ok, "R20.3", FStr(du), "empty-value-rejected#"+itoa(k+1), r.Pos(), "the form decoder succeeds only for a non-empty level value (guards %v)", AtomStrings(Guards(r)))
 			}
 		}
 	}
@@ -507,8 +507,13 @@ func checkC20(c *Ctx) {
 				n++
 			}
 		}
-		c.Check(n == 2, "R20.3", dr.String(), "relays-decoder", dr.Pos(), "both content-type arms relay their decoder's (level, error) unchanged")
-		// the level is read from the URL/form only when the request says it is a form
+		c.Check(n == 2, "R20.3", FStr(dr), "relays-decoder", dr.Pos(), "both content-type arms relay their decoder's (level, error) unchanged")
+	}
+	// the level is read from the URL/form only when the request says it is a form (wherever the decoders are chosen)
+	c.EachRootFunc(func(dr *ssa.Function) {
+		if dr.Pkg == nil || dr.Pkg.Pkg.Path() != ZapPath {
+			return
+		}
 		for _, cl := range Calls(dr) {
 			if !IsCallTo(cl, ZapPath+".decodePutURL") {
 				continue
@@ -521,9 +526,9 @@ func checkC20(c *Ctx) {
 					form = true
 				}
 			}
-			c.Check(form, "R20.3", dr.String(), "form-only-for-form-content", cl.Pos(), "the URL/form decoder is used only under Content-Type == application/x-www-form-urlencoded (any other request must carry the level in a JSON body): guards %v", atoms)
+			c.Check(form, "R20.3", FStr(dr), "form-only-for-form-content", cl.Pos(), "the URL/form decoder is used only under Content-Type == application/x-www-form-urlencoded (any other request must carry the level in a JSON body): guards %v", atoms)
 		}
-	}
+	})
 
 	// ---------------- R20.4 ----------------
 	lf := c.Func(ZapPath, "LevelFlag")
@@ -613,21 +618,21 @@ func checkC20(c *Ctx) {
 					if m := c.SSA.LookupMethod(mi.X.Type(), nil, "Set"); m != nil && curProgRoot(m) && m.Synthetic == "" {
 						c20PlainSetGuarded(c, "R20.4", m)
 					} else {
-						c.Und("R20.4", lf.String(), "flag-value-set", cl.Pos(), "the registered flag.Value (%s) has no Set method in the analysed packages", TypeName(mi.X.Type()))
+						c.Und("R20.4", FStr(lf), "flag-value-set", cl.Pos(), "the registered flag.Value (%s) has no Set method in the analysed packages", TypeName(mi.X.Type()))
 					}
 				}
 			}
 		}
-		c.Check(!trunc && len(seqs) > 0 && len(bad) == 0, "R20.4", lf.String(), "registers-returned-var", lf.Pos(), "on every path a fresh Level variable is initialised with the default, registered with the process-wide flag set, and its address is what is returned (offending: %v)", bad)
+		c.Check(!trunc && len(seqs) > 0 && len(bad) == 0, "R20.4", FStr(lf), "registers-returned-var", lf.Pos(), "on every path a fresh Level variable is initialised with the default, registered with the process-wide flag set, and its address is what is returned (offending: %v)", bad)
 	}
 	set := c.Method(CorePath, "Level", "Set")
 	get := c.Method(CorePath, "Level", "Get")
 	if c.Anchor("R20.4", "zapcore.Level.Set/Get", set != nil && get != nil) {
 		for _, r := range Returns(set) {
-			c.Check(Desc(RetVals(r)[0]) == "UnmarshalText(l, conv[[]byte](s))", "R20.4", set.String(), "set-parses", r.Pos(), "Set is UnmarshalText of the flag text (%s)", Desc(RetVals(r)[0]))
+			c.Check(Desc(RetVals(r)[0]) == "UnmarshalText(l, conv[[]byte](s))", "R20.4", FStr(set), "set-parses", r.Pos(), "Set is UnmarshalText of the flag text (%s)", Desc(RetVals(r)[0]))
 		}
 		for _, r := range Returns(get) {
-			c.Check(Desc(RetVals(r)[0]) == "l", "R20.4", get.String(), "get-reads", r.Pos(), "Get returns *l (%s)", Desc(RetVals(r)[0]))
+			c.Check(Desc(RetVals(r)[0]) == "l", "R20.4", FStr(get), "get-reads", r.Pos(), "Get returns *l (%s)", Desc(RetVals(r)[0]))
 		}
 	}
 	_ = token.NoPos
@@ -653,7 +658,7 @@ func singleStoreLoose(a *ssa.Alloc) ssa.Value {
 
 // c20SetGuarded: every SetLevel call in fn is dominated by `<err of a parse call> == nil`.
 func c20SetGuarded(c *Ctx, rule string, fn *ssa.Function) {
-	name := fn.String()
+	name := FStr(fn)
 	// by path exploration (zap's own helpers inline, the zapcore text parsers opaque and forked into success/failure):
 	// the atomic level is overwritten only after the parse succeeded, with exactly the parsed level, and then nil is
 	// returned; a failed parse stores nothing and returns the error
@@ -779,7 +784,7 @@ func c20SetGuarded(c *Ctx, rule string, fn *ssa.Function) {
 					return "store(" + where + st.Desc(v) + ")"
 				}
 				if IsCallTo(x, "(*sync/atomic.Int32).Swap", "(*sync/atomic.Int32).CompareAndSwap", "(*sync/atomic.Int32).Add") {
-					return "store(" + CalleeFunc(x).Name() + ")"
+					return "store(" + FNm(CalleeFunc(x)) + ")"
 				}
 			case *ssa.Return:
 				if len(x.Results) == 0 {
@@ -874,17 +879,17 @@ func c20ReturnsParsedOnlyOnSuccess(c *Ctx, rule string, fn *ssa.Function) {
 		if e0, ok0 := Strip(rv[0]).(*ssa.Extract); ok0 {
 			if e1, ok1 := Strip(rv[1]).(*ssa.Extract); ok1 && e0.Tuple == e1.Tuple && e0.Index == 0 && e1.Index == 1 {
 				if cl, isC := e0.Tuple.(*ssa.Call); isC && IsCallTo(cl, "go.uber.org/zap/zapcore.ParseLevel") {
-					c.OK(rule, fn.String(), "relays-parser#"+itoa(k+1), r.Pos(), "returns both results of zapcore.ParseLevel unchanged")
+					c.OK(rule, FStr(fn), "relays-parser#"+itoa(k+1), r.Pos(), "returns both results of zapcore.ParseLevel unchanged")
 					continue
 				}
 			}
 		}
 		if IsNilConst(Strip(rv[1])) {
 			ok := HasAtom(Guards(r), c20ParseOK)
-			c.Check(ok, rule, fn.String(), "success-after-parse#"+itoa(k+1), r.Pos(), "a nil error is returned only when the level parser (Level.UnmarshalText / ParseLevel) succeeded")
+			c.Check(ok, rule, FStr(fn), "success-after-parse#"+itoa(k+1), r.Pos(), "a nil error is returned only when the level parser (Level.UnmarshalText / ParseLevel) succeeded")
 		} else {
 			v, isC := ConstInt(rv[0])
-			c.Check(isC && v == 0, rule, fn.String(), "error-returns-zero#"+itoa(k+1), r.Pos(), "error returns carry the zero level, not a half-parsed one")
+			c.Check(isC && v == 0, rule, FStr(fn), "error-returns-zero#"+itoa(k+1), r.Pos(), "error returns carry the zero level, not a half-parsed one")
 		}
 	}
 }
@@ -894,7 +899,7 @@ func c20ReturnsParsedOnlyOnSuccess(c *Ctx, rule string, fn *ssa.Function) {
 // rejected flag text must leave the level as it was), and an accepted text is stored and nil returned.
 func c20PlainSetGuarded(c *Ctx, rule string, fn *ssa.Function) {
 	if len(fn.Params) < 2 {
-		c.Und(rule, fn.String(), "set-only-after-successful-parse", fn.Pos(), "unexpected signature")
+		c.Und(rule, FStr(fn), "set-only-after-successful-parse", fn.Pos(), "unexpected signature")
 		return
 	}
 	recv := fn.Params[0]
@@ -998,5 +1003,5 @@ func c20PlainSetGuarded(c *Ctx, rule string, fn *ssa.Function) {
 			nOK++
 		}
 	}
-	c.Check(!trunc && len(seqs) > 0 && len(bad) == 0 && nOK > 0, rule, fn.String(), "set-only-after-successful-parse", fn.Pos(), "over %d paths (parser forked into success / failure): the variable is assigned only after the text parsed, and then nil is returned; a rejected text stores nothing and returns the error (offending: %v)", len(seqs), bad)
+	c.Check(!trunc && len(seqs) > 0 && len(bad) == 0 && nOK > 0, rule, FStr(fn), "set-only-after-successful-parse", fn.Pos(), "over %d paths (parser forked into success / failure): the variable is assigned only after the text parsed, and then nil is returned; a rejected text stores nothing and returns the error (offending: %v)", len(seqs), bad)
 }
